@@ -178,3 +178,42 @@ package sqlite
 //@     before call (squirrel.UpdateBuilder).Set args _, col, v : assert col == "deleted_at"
 //@     before call (squirrel.UpdateBuilder).Where args _, pred : assert typeIs(pred, "squirrel.Eq") && typeIs(as(pred, "squirrel.Eq")["id"], "string") && as(as(pred, "squirrel.Eq")["id"], "string") == id
 //@     after call (squirrel.UpdateBuilder).ExecContext returning r, e : ran = true ; execErr = e
+
+// ------------------------------------------------------------------ C17 / C14 / C16: model reads (Go half)
+// a model is looked up by exactly (store, id); the latest model of a store is the first row of this store's models in
+// descending id order; the paginated list is this store's models in descending id order ("models newest first"),
+// resumed at id <= token, fetching one row more than the page, and a token is returned only with a full page
+//@ func (*Datastore).ReadAuthorizationModel(s, ctx, store, modelID) (res, err)
+//@   property C17 C16
+//@   option nosafety
+//@   option defer_neutral
+//@   monitor statement
+//@     before call (squirrel.SelectBuilder).Where args _, pred : assert typeIs(pred, "squirrel.Eq") && typeIs(as(pred, "squirrel.Eq")["store"], "string") && as(as(pred, "squirrel.Eq")["store"], "string") == store && typeIs(as(pred, "squirrel.Eq")["authorization_model_id"], "string") && as(as(pred, "squirrel.Eq")["authorization_model_id"], "string") == modelID
+
+//@ func (*Datastore).FindLatestAuthorizationModel(s, ctx, store) (res, err)
+//@   property C17 C16
+//@   option nosafety
+//@   option defer_neutral
+//@   monitor statement
+//@     ghost scoped = false
+//@     ghost ordered = false
+//@     ghost one = false
+//@     after call (squirrel.SelectBuilder).Where args _, pred : scoped = pre(typeIs(pred, "squirrel.Eq") && typeIs(as(pred, "squirrel.Eq")["store"], "string") && as(as(pred, "squirrel.Eq")["store"], "string") == store)
+//@     after call (squirrel.SelectBuilder).OrderBy args _, cols : ordered = pre(len(cols) == 1 && cols[0] == "authorization_model_id desc")
+//@     after call (squirrel.SelectBuilder).Limit args _, n : one = n == 1
+//@     before call (squirrel.SelectBuilder).QueryContext args _ : assert scoped && ordered && one
+
+//@ func (*Datastore).ReadAuthorizationModels(s, ctx, store, options) (res, token, err)
+//@   property C14 C16
+//@   option nosafety
+//@   option defer_neutral
+//@   ensures @fullPageWithToken err == nil && token != "" ==> options.Pagination.PageSize > 0 && len(res) >= options.Pagination.PageSize
+//@   loop 0 invariant token == "" && (options.Pagination.PageSize > 0 ==> len(models) <= options.Pagination.PageSize)
+//@   monitor statement
+//@     ghost scoped = false
+//@     ghost ordered = false
+//@     ghost limited = false
+//@     after call (squirrel.SelectBuilder).Where args _, pred : scoped = scoped || pre(typeIs(pred, "squirrel.Eq") && typeIs(as(pred, "squirrel.Eq")["store"], "string") && as(as(pred, "squirrel.Eq")["store"], "string") == store)
+//@     after call (squirrel.SelectBuilder).OrderBy args _, cols : ordered = pre(len(cols) == 1 && cols[0] == "authorization_model_id desc")
+//@     after call (squirrel.SelectBuilder).Limit args _, n : limited = n == options.Pagination.PageSize + 1
+//@     before call (squirrel.SelectBuilder).QueryContext args _ : assert scoped && ordered && (options.Pagination.PageSize > 0 ==> limited)
